@@ -37,6 +37,10 @@ CHECKS = {
             "Acceptance-level header-pairing monitor: for each (request, conforming reply) pair - real corpus RQ->RP/W->I adjacency pairs, schema-regex-sampled requests with context-pinned replies, constructor outputs - the real PortProtocol/FSM is sent the command on a virtual clock and offered exactly one candidate: the echo with the gateway id substituted (must be returned), the reply (must be returned when awaited), or a packet differing in exactly one of code / verb / device / context (must not be returned).",
             "Context near-misses are limited to the established index positions (0005/000C [0:4], 0404 [0:2]+[10:12], 0418/3220 [4:6], leading byte for a committed list of zone-indexed codes) and must themselves be decodable; requester/destination differences are recorded, not judged; two recorded 1FC9 findings.",
             "acceptance-level near-miss monitor on the real FSM (history + executable pairing rule)", "§3 C06"),
+    "C17": ("exploration",
+            "Schedule round-trip monitor: validator-accepted weekly schedules (7 ordered days, 1..20 ordered switchpoints, all 288 times, the whole 5.00-35.00 0.01 grid, DHW on/off, zones 00-0B/HW) through full_sched_to_fragz/fragz_to_full_sched with exact equality; every fragment non-empty and <= 41 bytes; the W|0404 command from the public constructor and the RP|0404 a controller would send are decoded by the library's own decoder and must carry the same fragment; the decoder must also invert an independent encoder; a real file-sourced Gateway is fed the RP fragment packets of one or two zones in all permutations (<=4 fragments) / seeded permutations with duplications and must report the encoded schedule or none.",
+            "Input class = the statement's (seven days in order); reference encoder written from the documented 20-byte record layout; zones are created by an RP|000C first, as a controller would announce them.",
+            "round-trip + metamorphic (order/duplication) monitor on the real encoder, decoder and Schedule reassembly", "§3 C17"),
 }
 NOT_APPLICABLE = []
 
